@@ -65,7 +65,8 @@ def required(tier):
            'C02.transform-linear', 'C02.M=LtL', 'C02.M-symmetric',
            'C02.M-psd', 'C02.form.list', 'C02.form.fortran',
            'C02.form.strided', 'C02.form.single', 'C02.form.int',
-           'C02.form.prep-array', 'C02.form.prep-callable']}
+           'C02.form.prep-array', 'C02.form.prep-callable',
+           'C02.form.float32']}
 
 
 def run_case(spec, j):
@@ -221,11 +222,30 @@ def run_case(spec, j):
         ti = est.transform(Pi[:, 0])
         j.close('C02.form.int', ti, tu, rel * np.abs(tu) + 8 * EPS * d *
                 Lf * np.linalg.norm(u, axis=1)[:, None] + 1e-300, det)
+      # narrower float dtypes: same numbers, exactly representable in float64
+      P32 = P.astype(np.float32)
+      if np.all(np.isfinite(P32)):
+        ref32 = est.pair_distance(P32.astype(np.float64))
+        nd32 = np.linalg.norm(P32[:, 0].astype(float) -
+                              P32[:, 1].astype(float), axis=1)
+        ok32 = (Lf * nd32 < 1e30) & ((Lf * nd32 > 1e-30) | (nd32 == 0))
+        # (the library subtracts the two points in the dtype it is given:
+        # float32 rounding of the difference, at the scale of the points)
+        e32 = float(np.finfo(np.float32).eps)
+        nuv = (np.linalg.norm(P32[:, 0].astype(float), axis=1) +
+               np.linalg.norm(P32[:, 1].astype(float), axis=1))
+        j.close('C02.form.float32', est.pair_distance(P32)[ok32], ref32[ok32],
+                8 * e32 * Lf * nuv[ok32] + 1e-6 * np.abs(ref32[ok32]) +
+                1e-300, det)
       for kind, (tw, mp) in twins.items():
         idx = offset + np.arange(2 * n).reshape(n, 2)
         before = mp.n_calls if mp is not None else 0
         got = tw.pair_distance(idx)
-        same('C02.form.prep-' + kind, got)
+        # (the twin is a separate fit: LFDA with n_components < d starts
+        # ARPACK from a random vector, which on ill-conditioned data moves
+        # distances by up to ~1e-10 relative)
+        j.close('C02.form.prep-' + kind, np.asarray(got)[sel], d1[sel],
+                1e-7 * np.abs(d1[sel]) + tol_diff[sel], det)
         if mp is not None:
           j.check('C02.form.prep-consulted', mp.n_calls > before, det)
     offset += 2 * n
